@@ -1018,3 +1018,21 @@ M("C11.membership_ignores_extension", ["C11"], "emitter/file/src/lib.rs",
 M("C11.membership_prefix_from_extension", ["C11"], "emitter/file/src/lib.rs",
   "            if is_file_in_set(file_name, file_prefix, file_ext) {",
   "            if is_file_in_set(file_name, file_ext, file_ext) {", "C11.R3:listing-filter")
+
+# ---- round 6 (own probing of the blocking entry points): Trigger, send_or_wait, callbacks ------------------------------------------
+M("C07.wait_zero_timeout_reports_flushed", ["C07"], "batcher/src/sync.rs",
+  "            if timeout == Duration::ZERO {\n                return false;", "            if timeout == Duration::ZERO {\n                return true;", "C07.R4:Trigger")
+M("C07.wait_timed_out_reports_flushed", ["C07"], "batcher/src/sync.rs",
+  """                (flushed, _) => {
+                    return *flushed;
+                }""", """                (_, _) => {
+                    return true;
+                }""", "C07.R4:Trigger")
+M("C08.blocking_send_elapsed_constant", ["C08", "C09"], "batcher/src/sync.rs",
+  "        || start.elapsed(),", "        || Duration::ZERO,", "R3:send_or_wait-clock")
+M("C09.send_or_wait_ok_on_expiry", ["C09"], "batcher/src/lib.rs",
+  "                    if elapsed >= timeout {\n                        return Err(err);", "                    if elapsed >= timeout {\n                        return Ok(());", "C09.R3:send_or_wait-outcomes")
+M("C08.when_empty_callback_lost", ["C08"], "batcher/src/lib.rs",
+  "            state.next_batch.watchers.push_on_take(Box::new(f));", "            drop(f);", "C08.R3:when_empty-consumes-callback")
+M("C08.when_flushed_parked_on_take", ["C08"], "batcher/src/lib.rs",
+  "            state.next_batch.watchers.push_on_flush(Box::new(f));", "            state.next_batch.watchers.push_on_take(Box::new(f));", "C08.R3:when_flushed-consumes-callback")
